@@ -60,6 +60,38 @@ PRESERVING = [
 ]
 
 
+def _lzss(ctx):
+    """the literal values must survive the default (LZSS) compression setting: the C12 writer/reader rules of the LZSS format, under C10 ids"""
+    from ..rules import sC12
+    rules = sC12.lzss_rules(ctx) + [sC12.rule_match(ctx), sC12.rule_end(ctx), sC12.rule_literal(ctx), sC12.rule_caller(ctx)]
+    for r in rules:
+        r.id = 'C10-LZSS-' + r.id.split('-', 1)[1]
+        for f in r.findings:
+            f.rule = r.id
+    return rules
+
+
 def run(ctx):
-    return [pC10.rule_escapes(ctx), pC10.rule_name_alphabet(ctx), pC10.rule_total(ctx), pC10.rule_l6(ctx),
-            pC10.rule_siblings(ctx), pC10.rule_algorithms(ctx)]
+    from ..rules import sC10
+    return _lzss(ctx) + [pC10.rule_escapes(ctx), pC10.rule_name_alphabet(ctx), pC10.rule_total(ctx), pC10.rule_l6(ctx),
+            pC10.rule_siblings(ctx), pC10.rule_algorithms(ctx),
+            sC10.rule_prefix(ctx), sC10.rule_cat(ctx), sC10.rule_strtab(ctx), sC10.rule_pykey(ctx), sC10.rule_strfold(ctx), sC10.rule_clen(ctx), sC10.rule_builders(ctx), sC10.rule_pyrequest(ctx), sC10.rule_newlines(ctx), sC10.rule_codec(ctx)]
+
+
+# ---------------------------------------------------------------------------------------------------------------------------------
+# fourth strengthening round (session G11): rules of sa/rules/sC10.py
+DECIDES += (' C10-PREFIX: for every prefix the lexicon accepts (all spellings / orders of u b r, c, f t with r; four quote styles; language level 2/3) p_string_literal / '
+            'p_ft_string_literal give the kind, rawness and builder CPython assigns (reference: ast.literal_eval of the prefix), and begin_string_action / begin_ft_string_action '
+            'enter the lexicon state of the quote style, raw exactly when the parser reads the literal raw. '
+            'C10-CAT: p_cat_string_literal on every sequence of two or three literals of kinds b / u / unprefixed / f joins the parts in source order in both values, keeps plain '
+            'parts of an f-string, rejects bytes mixed with str. '
+            'C10-BUILD: the three literal builders hand back (None, str) / (bytes, None) / (bytes, str) and encode text pieces with the source encoding. '
+            'C10-NL: line breaks in triple-quoted bodies. '
+            'C10-TAB: generate_pystring_constants folded on 53 mixes of plain / non-ASCII / interned text and bytes constants with and without compressible data; in every #if branch '
+            'every #define names the slot that the emitted unpacking loops fill with the constant\'s value and type (length index widths, offsets, sort order, branch data lineage). '
+            'C10-PYKEY / C10-PYREQ: the per-C-string cache of Python constants and GlobalState.get_py_string_const return a constant of the kind / encoding of the requesting literal. '
+            'C10-STRFOLD: folding of `literal * n` and `literal + literal` keeps the str value and its bytes twin in step. '
+            'C10-CLEN / C10-CODEC: sizeof(<C string>) - 1 as data length, the decompressor\'s length parameter unchanged, encode codec == emitted PyUnicode_Decode<codec>.')
+NOT_DECIDED = ('decoding of the source file itself (coding cookie, BOM), surrogate pairs on narrow builds, Py2-style ur"" literals (language_level 2), the escaping of the table data as a C '
+               'string literal (C11), the LZSS bit format (C12), the stdlib codecs behind zlib / bz2 / zstd, the interning decision beyond "identifier-like constants are interned".')
+MUTATIONS = 'see /verif/mutants/C10/*/meta.json (34 brainstormed mutants: 26 breaking - all reported, 8 behaviour-preserving - all silent); the 22 variants of the first build are listed above'
